@@ -659,6 +659,38 @@ func (d *c16Drv) sv(kv map[string]string) string {
 	return "SV " + c16Status(r) + " " + effect + " |" + side
 }
 
+// The state largeFileReceive is in between mh.Upload (hdl_files.go:318) and FinishUpload (:327),
+// i.e. what a concurrent request sees while an upload is running, and what stays when the server
+// stops there: the REAL fs handler's Upload (os.Create + store.Files.StartUpload + io.Copy) on a
+// FileDef built like the handler builds it, and no FinishUpload.
+func (d *c16Drv) inflight(w []string) string {
+	fid, _ := strconv.Atoi(w[1])
+	n, _ := strconv.Atoi(w[3])
+	content := c16Content(w[2], n, fid)
+	buff := content
+	if len(buff) > 512 {
+		buff = buff[:512]
+	}
+	fdef := &types.FileDef{
+		ObjHeader: types.ObjHeader{Id: store.Store.GetUidString()},
+		User:      d.users[1].String(),
+		MimeType:  http.DetectContentType(buff),
+	}
+	fdef.InitTimes()
+	d.useHandler("fs")
+	before := d.snap()
+	if _, _, err := store.Store.GetMediaHandler().Upload(fdef, bytes.NewReader(content)); err != nil {
+		return "INFLIGHT failed-" + c16Hex(err.Error())
+	}
+	after := d.snap()
+	rec, ok := after.recs[fdef.Id]
+	if !ok || len(after.recs) != len(before.recs)+1 || len(after.dir) != len(before.dir)+1 || rec.Status != types.UploadStarted {
+		return "INFLIGHT odd"
+	}
+	d.files[fid] = &c16File{id: fdef.Id, url: c16ServeURL + fdef.Id, content: content}
+	return "INFLIGHT ok"
+}
+
 // disposition of a record with an arbitrary content type through the real handler
 func (d *c16Drv) fa(asatt string, mime string) string {
 	fdef := &types.FileDef{ObjHeader: types.ObjHeader{Id: store.Store.GetUidString()}, MimeType: mime}
@@ -766,6 +798,26 @@ func (d *c16Drv) hist(w []string) string {
 		}
 		d.sess[at(1)] = vNewSession(at(1), u.Uid(), lvl)
 		return "USER ok"
+	case "NEWACC": // NEWACC <u> <attachment templates>: {acc user="new"} from a session that is not logged in
+		u := at(1)
+		d.sess[u] = vNewSession(700+u, types.ZeroUid, auth.LevelNone)
+		id := d.nextID()
+		secret := base64.StdEncoding.EncodeToString([]byte("verif" + id + ":password" + id))
+		c := d.send(u, id, `{"acc":{"id":"`+id+`","user":"new","scheme":"basic","secret":"`+secret+
+			`","login":false,"desc":{"public":{"fn":"n`+w[1]+`"}}}`+c16Extra(d.expandList(w[2]))+`}`)
+		delete(d.sess, u)
+		if c == nil || c.Code != 201 {
+			return "NEWACC " + c16Code(c)
+		}
+		p, _ := c.Params.(map[string]any)
+		name, _ := p["user"].(string)
+		uid := types.ParseUserId(name)
+		if uid.IsZero() {
+			return "NEWACC nouser"
+		}
+		d.users[u] = uid
+		d.sess[u] = vNewSession(u, uid, auth.LevelAuth)
+		return "NEWACC 201"
 	case "TOPIC": // TOPIC <t> <owner> <attachment templates>
 		id := d.nextID()
 		c := d.send(at(2), id, `{"sub":{"id":"`+id+`","topic":"new","set":{"desc":{"public":{"fn":"t`+w[1]+`"}}}}`+
@@ -957,6 +1009,8 @@ func (d *c16Drv) line(w []string) string {
 		return d.up(vKV(w[1:]))
 	case "SV":
 		return d.sv(vKV(w[1:]))
+	case "INFLIGHT": // INFLIGHT <fid> <kind> <n>: an upload that is between StartUpload and FinishUpload
+		return d.inflight(w)
 	case "RESOLVE": // RESOLVE <template>: the id the configured media handler extracts, as a file index
 		id := store.Store.GetMediaHandler().GetIdFromUrl(d.expand(w[1]))
 		if id.IsZero() {
@@ -1012,6 +1066,15 @@ func TestVerifC16(t *testing.T) {
 	}
 	if !hdl.IsInitialized() {
 		if err := hdl.Init(json.RawMessage(`{"expire_in":1209600,"serial_num":1,"key":"wfaY2RgF2S1OQI/ZlK+LSrp1KB2jwAdGAIHQ7JZn+Kc="}`), "token"); err != nil {
+			t.Fatal(err)
+		}
+	}
+
+	// basic authenticator for {acc user="new"}
+	if bh := store.Store.GetLogicalAuthHandler("basic"); bh == nil {
+		t.Fatal("no basic authenticator")
+	} else if !bh.IsInitialized() {
+		if err := bh.Init(json.RawMessage(`{"add_to_tags":false,"min_login_length":3,"min_password_length":3}`), "basic"); err != nil {
 			t.Fatal(err)
 		}
 	}
